@@ -476,8 +476,8 @@ def corpus(tier):
     top2 = multi_term("T", [XA, YA], [(pm, ("1", "p")), (pm, ("p",))])
     top3 = multi_term("T", [XA], [(pm, ("1",)), (pm, ("p",)), (("-",), ("2",))])
     if thorough:
-        top2 += multi_term("T", [XA, YA], [(pm, ("1", "p", "/p", "2")),
-                                           (pm, ("1", "p", "/p"))])
+        top2 += multi_term("T", [XA, YA], [(pm, ("1", "/p", "2")),
+                                           (pm, ("1", "/p"))])
         top3 += multi_term("T", [XA], [(pm, ("1",)), (pm, ("p",)), (pm, ("2",))])
         top3 += multi_term("T", [YA], [(pm, ("p",)), (pm, ("1",)), (pm, ("/p",))])
     add("A1.top-1term", [[s] for s in top1])
@@ -498,15 +498,15 @@ def corpus(tier):
     loop2 = multi_term("L1s", [XA, UI], [(pm, ("p",)), (pm, ("1", "q"))])
     if thorough:
         loop2 += multi_term("L1s", [VI], [(pm, ("p",)), (pm, ("1", "q"))])
-        loop2 += multi_term("L1", [XA, UI, VI], [(pm, ("1",)), (pm, ("1", "q"))])
+        loop2 += multi_term("L1", [UI], [(pm, ("1",)), (pm, ("1", "q"))])
     add("B2.loop-2term", [[loop("up", [s])] for s in loop2])
     loop3 = multi_term("L1s", [UI], [(("+",), ("p",)), (pm, ("1",)),
                                      (("-",), ("/q",))])
     if thorough:
         loop3 += multi_term("L1s", [UI], [(("+",), ("p",)), (pm, ("1",)),
                                           (pm, ("/q",))])
-        loop3 += multi_term("L1s", [XA, VI], [(pm, ("1",)), (pm, ("p",)),
-                                              (("+",), ("q",))])
+        loop3 += multi_term("L1s", [VI], [(pm, ("1",)), (pm, ("p",)),
+                                          (("+",), ("q",))])
     add("B3.loop-3term", [[loop("up", [s])] for s in loop3])
 
     # ---- C: every loop kind around the representative statements ---------
@@ -516,7 +516,7 @@ def corpus(tier):
     if thorough:
         add("C2.loopkinds-1term",
             [[loop(k, [s])] for k in kinds if k not in ("up", "c3", "r3")
-             for s in one_term("L1", lhs_l1, ["1", "p", "/q"], signs=("+",))])
+             for s in one_term("L1", lhs_l1, ["1", "/q"], signs=("+",))])
 
     # ---- D: nested loops --------------------------------------------------
     red2 = reduced("L2", "thorough")
@@ -550,7 +550,7 @@ def corpus(tier):
     rt = reduced("T", tier)
     r1 = reduced("L1", tier)
     r2 = reduced("L2", tier)
-    k2 = ["up", "s2"] + (["dn", "in", "c3"] if thorough else [])
+    k2 = ["up", "s2"] + (["dn"] if thorough else [])
     add("F1.top-seq2", [[s, t] for s in rt for t in rt])
     add("F2.loop-seq2", [[loop(k, [s, t])] for k in k2 for s in r1 for t in r1])
     add("F3.loop-then-stmt", [[loop("up", [s]), t] for s in r1 for t in rt] +
@@ -579,10 +579,10 @@ def corpus(tier):
         bt = reduced("T", "quick")
         b1 = reduced("L1", "quick")
         b2 = reduced("L2", "quick")
-        add("G1.top-seq3", [[s, t, r] for s in rt for t in rt for r in rt])
+        add("G1.top-seq3", [[s, t, r] for s in bt for t in bt for r in bt] +
+            [[s, t, r] for s in rt[4:] for t in rt for r in rt[4:]])
         add("G2.loop-seq3", [[loop(k, [s, t, r])] for k in ("up", "s2")
-                             for s in b1 for t in b1 for r in b1] +
-            [[loop("up", [s, t, r])] for s in r1[5:] for t in b1 for r in r1[5:]])
+                             for s in b1 for t in b1 for r in b1])
         add("G3.mixed-seq3", [[s, loop("up", [t]), r] for s in bt for t in b1
                               for r in bt] +
             [[loop("up", [s]), r, loop("dn", [t])] for s in b1 for t in b1
